@@ -53,7 +53,9 @@ fn main() {
             &arg(&args, "--out").unwrap_or_else(|| "out/conc".into()),
             arg(&args, "--sample-every").and_then(|v| v.parse().ok()).unwrap_or(50),
             arg(&args, "--max-runs").and_then(|v| v.parse().ok()).unwrap_or(0),
+            args.iter().any(|a| a == "--isolate"),
         ),
+        "conc-one" => conc::run_one_child(),
         "conc-probe" => conc::probe(),
         "rerun" => drive::rerun(&arg(&args, "--in").expect("--in"), &arg(&args, "--out").expect("--out")),
         _ => {
